@@ -135,6 +135,9 @@ func Formats(thorough bool) []format {
 		// pages of the web UI (the body served by the handler)
 		{"web/top", []string{"web:/top"}}, {"web/flamegraph", []string{"web:/flamegraph"}}, {"web/peek", []string{"web:/peek?f=."}},
 		{"web/top,lines", []string{"web:/top?g=lines"}}, {"web/source", []string{"web:/source?f=."}},
+		// reports that consult the object tool (a deterministic fake)
+		{"disasm", []string{"obj:disasm=."}}, {"list", []string{"obj:list=."}}, {"weblist", []string{"obj:weblist=."}},
+		{"web/disasm", []string{"web:/disasm?f=."}},
 	}
 	if thorough {
 		fs = append(fs, format{"tree,files", []string{"tree", "files"}}, format{"dot,addresses", []string{"dot", "addresses"}},
@@ -218,7 +221,23 @@ func observe(r *drive.Result) string {
 func exploreOne(c *vk.Ctx, in input, f format, data map[string][]byte, bound int) {
 	var last string
 	body := func() {
+		if strings.HasPrefix(f.flags[0], "obj:") {
+			fl := drive.MkFlags([]string{"p"}, append([]string{strings.TrimPrefix(f.flags[0], "obj:")}, f.flags[1:]...)...)
+			r := drive.Run(&drive.Session{Fetch: &drive.Fetcher{Data: data}, Flags: fl, Obj: drive.FakeObj{}})
+			last = observe(r)
+			return
+		}
 		if strings.HasPrefix(f.flags[0], "web:") {
+			flw := drive.MkFlags([]string{"p"})
+			delete(flw.Strings, "output")
+			flw.Strings["http"] = "localhost:8080"
+			flw.Bools["no_browser"] = true
+			r := drive.Run(&drive.Session{Fetch: &drive.Fetcher{Data: data}, Flags: flw, Obj: drive.FakeObj{}})
+			code, b, pan := drive.Get(r.Handlers, "GET", strings.TrimPrefix(f.flags[0], "web:"))
+			last = fmt.Sprintf("%d %v\n%s\nUIERR:%v", code, pan, b, r.UI.Errs)
+			return
+		}
+		if false {
 			r := drive.Web(data, []string{"p"})
 			code, b, pan := drive.Get(r.Handlers, "GET", strings.TrimPrefix(f.flags[0], "web:"))
 			last = fmt.Sprintf("%d %v\n%s\nUIERR:%v", code, pan, b, r.UI.Errs)
